@@ -18,6 +18,7 @@ import (
 	"github.com/jackalLabs/canine-chain/v4/x/oracle"
 	otypes "github.com/jackalLabs/canine-chain/v4/x/oracle/types"
 	"github.com/jackalLabs/canine-chain/v4/x/rns"
+	mtypes "github.com/jackalLabs/canine-chain/v4/x/jklmint/types"
 	rtypes "github.com/jackalLabs/canine-chain/v4/x/rns/types"
 	"github.com/jackalLabs/canine-chain/v4/x/storage"
 	stypes "github.com/jackalLabs/canine-chain/v4/x/storage/types"
@@ -155,6 +156,13 @@ func (f *genFam) populate(r *rand.Rand) {
 	f.try(&rtypes.MsgList{Creator: a.S(), Name: "alpha.jkl", Price: sdk.NewInt64Coin("ujkl", 777)})
 	f.try(&rtypes.MsgBid{Creator: cc.S(), Name: "beta.jkl", Bid: sdk.NewInt64Coin("ujkl", 55)})
 	f.try(&rtypes.MsgAddRecord{Creator: b.S(), Name: "beta.jkl", Value: b.S(), Data: "{}", Record: "r1"})
+	f.try(&rtypes.MsgUpdate{Creator: b.S(), Name: "beta.jkl", Data: `{"site":"x"}`})
+	if opt() {
+		f.try(&rtypes.MsgAddRecord{Creator: b.S(), Name: "beta.jkl", Value: cc.S(), Data: `{"k":2}`, Record: "r2"})
+		f.try(&rtypes.MsgRegisterName{Creator: cc.S(), Name: "GammaName.ibc", Years: 1, Data: "{}"})
+		f.try(&rtypes.MsgList{Creator: b.S(), Name: "beta.jkl", Price: sdk.NewInt64Coin("ujkl", 12345)})
+		f.try(&rtypes.MsgBid{Creator: a.S(), Name: "beta.jkl", Bid: sdk.NewInt64Coin("ujkl", 66)})
+	}
 	if opt() {
 		f.try(&rtypes.MsgInit{Creator: cc.S()})
 		f.try(&rtypes.MsgMakePrimary{Creator: b.S(), Name: "beta.jkl"})
@@ -165,11 +173,12 @@ func (f *genFam) populate(r *rand.Rand) {
 	f.try(&fttypes.MsgProvisionFileTree{Creator: a.S(), Viewers: "{}", Editors: ed, TrackingNumber: "t"})
 	f.try(&fttypes.MsgPostFile{Creator: a.S(), Account: hx(a.S()), HashParent: fttypes.MerklePath("s"), HashChild: hx("c"), Contents: "x", Viewers: "{}", Editors: ed, TrackingNumber: "t"})
 	if opt() {
-		f.try(&fttypes.MsgProvisionFileTree{Creator: b.S(), Viewers: "{}", Editors: "{}", TrackingNumber: "t2"})
+		f.try(&fttypes.MsgProvisionFileTree{Creator: b.S(), Viewers: fmt.Sprintf("{\"%s\":\"vk\"}", viewerID("t2", b.S())), Editors: "{}", TrackingNumber: "t2"})
+		f.try(&fttypes.MsgPostKey{Creator: b.S(), Key: "pubkey-b"})
 	}
 	// notifications
 	f.try(&ntypes.MsgCreateNotification{Creator: a.S(), To: b.S(), Contents: `{"n":1}`})
-	f.try(&ntypes.MsgCreateNotification{Creator: b.S(), To: "alpha.jkl", Contents: `{"n":2}`})
+	f.try(&ntypes.MsgCreateNotification{Creator: b.S(), To: "alpha.jkl", Contents: `{"n":2}`, PrivateContents: []byte{0, 1, 2, 0xff, 0x7f}})
 	f.try(&ntypes.MsgBlockSenders{Creator: a.S(), ToBlock: []string{cc.S()}})
 	// blocks: mint history, reward blocks, gauge releases
 	for n := 3 + r.Intn(8); n > 0; n-- {
@@ -219,7 +228,20 @@ func (f *genFam) Apply(st M) M {
 		og.Params.Deposit = chain.NewAcct("oracle-deposit").S()
 		gs["oracle"] = a.AppCodec().MustMarshalJSON(&og)
 	}
-	f.c = chain.New(par)
+	par2 := func(gs app.GenesisState, a *app.JackalApp) {
+		par(gs, a)
+		var rg rtypes.GenesisState
+		a.AppCodec().MustUnmarshalJSON(gs["rns"], &rg)
+		rg.Params.DepositAccount = chain.NewAcct("rns-deposit").S()
+		gs["rns"] = a.AppCodec().MustMarshalJSON(&rg)
+		var mg mtypes.GenesisState
+		a.AppCodec().MustUnmarshalJSON(gs["jklmint"], &mg)
+		mg.Params.TokensPerBlock = 1_234_567
+		mg.Params.MintDecrease = 7
+		mg.Params.StakerRatio, mg.Params.DevGrantsRatio, mg.Params.StorageProviderRatio = 70, 10, 15
+		gs["jklmint"] = a.AppCodec().MustMarshalJSON(&mg)
+	}
+	f.c = chain.New(par2)
 	f.c.Step = 24 * 3600 * 1e9
 	f.populate(r)
 	c1 := f.c
